@@ -16,7 +16,7 @@ from . import monitor
 from .boot import VERIF, WORK
 from .monitor import CaseTimeout, STATE
 
-MAX_VIOL_KEPT = 40
+MAX_VIOL_KEPT = 80
 
 
 def h64(*parts: Any) -> str:
@@ -40,6 +40,7 @@ class Ctx:
         self.shapes: Counter = Counter()
         self.violations: list[dict] = []
         self.viol_count = 0
+        self.viol_groups: Counter = Counter()
         self.known_hits: Counter = Counter()
         self.known_witness: dict[str, str] = {}
         self.inconclusive: Counter = Counter()
@@ -84,7 +85,9 @@ class Ctx:
             v["finding"] = fid
             return
         self.viol_count += 1
-        if len(self.violations) < MAX_VIOL_KEPT:
+        gkey = (mon, what, str(detail.get("group", detail.get("value_type", ""))))
+        self.viol_groups[gkey] += 1
+        if self.viol_groups[gkey] <= 4 and len(self.violations) < MAX_VIOL_KEPT:
             self.violations.append(v)
 
     # ---- watchdog ---------------------------------------------------------------------------
@@ -156,6 +159,10 @@ def run_parent(prop: str, tier: str, seed: int, mod) -> int:
     nshards = mod.SHARDS[tier] if hasattr(mod, "SHARDS") else (4 if tier == "quick" else 16)
     shard_timeout = getattr(mod, "SHARD_TIMEOUT", {"quick": 240, "thorough": 1500})[tier]
     os.makedirs(WORK, exist_ok=True)
+    import glob
+
+    for old in glob.glob(os.path.join(VERIF, "replays", f"{prop}-*.json")):
+        os.unlink(old)
     procs = []
     for i in range(nshards):
         out = os.path.join(WORK, f"{prop}.{tier}.{seed}.{i}.{os.getpid()}.json")
